@@ -18,3 +18,27 @@ PROPS = {
         assumptions=["the model CompactImpl.v transcribes src/compact.rs arm by arm; agreement is sampled (exhaustive for short strings / u8 / u16 in thorough), the theorems about the model are unbounded"],
     ),
 }
+
+GEN_TRUSTED = [
+    "modelled, not verified: rustc's type checking (ill-typed values are EIll in the model), std collections (VecDeque::as_slices concatenates to iteration order; BTreeMap/BTreeSet::from_iter sorts by Ord and keeps the last of equal keys; BinaryHeap from a Vec keeps the multiset), String::from_utf8 (Utf8.v), to_le_bytes/from_le_bytes, bitvec chunks/view_bits/truncate, bytes::Bytes; size_of values are supplied by rustc through the harness descriptor and universally quantified in the theorems",
+    "inputs are modelled by their content and by whether remaining_len() is Some: &[u8] and BytesCursor = (bytes, known), IoReader over any reader (read_exact loops over short reads) and unknown-length inputs = (bytes, unknown); this identification is exercised by the correspondence (slice, IoReader with 1/3/4097-byte short reads, unknown-length Input, decode_from_bytes), not proved",
+    "descriptor conventions (Codec.v header): tuples/structs as right-nested pairs, Box/Rc/Arc as TBox, references transparent; signed integers and floats as raw little-endian bits; BTree keys restricted to types whose Ord is the structural order of val (unsigned integers, bool, Option, tuples, sequences, strings)",
+]
+
+def _gen(name, corr_is_property, extra_assumptions=()):
+    return dict(harness=name, model_fn="g_model", corr_is_property=corr_is_property,
+                corr_name="CorrGen.g_check: enc_impl / dec / run (stackmon) / allocation trace of the model vs Encode::encode, Decode::decode over &[u8]/unknown-length inputs, CountedInput/MemTrackingInput/depth-limit stacks and a recording Input, on the registry types",
+                trusted_base=GEN_TRUSTED, harness_timeout=2400,
+                assumptions=["the model Codec.v transcribes src/codec.rs, src/compact.rs, src/bit_vec.rs and the derive expansion; agreement with the working tree is sampled on every run (registry of ~190 concrete types, seeded boundary-biased values and mutated byte strings); the theorems about the model are unbounded"] + list(extra_assumptions))
+
+PROPS.update({
+    "C01": _gen("c01", True),
+    "C02": _gen("c02", False, ["bit sequences (TBits) are outside the round-trip theorem (nobits hypothesis); they are covered by the correspondence and the implementation-side oracle only", "RangeInclusive's exhausted flag is not part of the model value (known finding F5)"]),
+    "C03": _gen("c03", True, ["native stack exhaustion of plain decode on recursive user types is outside the model (known finding F7)"]),
+    "C07": _gen("c07", False),
+    "C08": _gen("c08", False),
+    "C11": _gen("c11", False, ["native stack usage is a runtime behaviour the model cannot exhibit; the theorem bounds the nesting of descend/ascend by the limit"]),
+    "C12": _gen("c12", False),
+    "C14": _gen("c14", False),
+    "C19": _gen("c19", False),
+})
